@@ -8,6 +8,7 @@ import Engeom.Driver.C11
 import Engeom.Driver.C12
 import Engeom.Driver.C14
 import Engeom.Driver.Curve
+import Engeom.Driver.C15
 import Engeom.Driver.C16
 import Engeom.Driver.C17
 
@@ -23,6 +24,7 @@ def dispatch (op : String) (args : List String) : Option String :=
   | "closest" => DrvC02.handle op args
   | "xform" => DrvC03.handle op args
   | "curve" => DrvCurve.handle op args
+  | "search" | "sample" | "hull" => DrvC15.handle op args
   | "select" => DrvC14.handle op args
   | "topo" => DrvC12.handle op args
   | "series" => DrvC17.handle op args
